@@ -469,8 +469,14 @@ func delegatesWithMeasure(fn, m *ssa.Function) (*ssa.Function, int) {
 	k := -1
 	sOK := false
 	for i, a := range call.Call.Args {
-		if f, isF := a.(*ssa.Function); isF && f == m {
+		// the measure handed over as it is, or converted to a named function type (a method receiver, say)
+		if f, isF := unwrap(a, true).(*ssa.Function); isF && f == m {
 			k = i
+		}
+		if ct, isCT := a.(*ssa.ChangeType); isCT {
+			if f, isF := ct.X.(*ssa.Function); isF && f == m {
+				k = i
+			}
 		}
 		if a == ssa.Value(fn.Params[0]) {
 			sOK = true
@@ -508,7 +514,20 @@ func c18LongestLine(c *Ctx, ll, lines *ssa.Function, measureName string, isMeasu
 			measures = append(measures, call)
 		}
 	})
-	r.Check("R18.1", name, "splits its argument with Lines exactly once", ll.Pos(), nsplit == 1 && split != nil && split.Call.Args[0] == ssa.Value(ll.Params[0]), "")
+	argIsParam := false
+	if split != nil {
+		// the string handed to the function (its only string parameter, wherever a receiver or a measure puts it)
+		if par, isPar := split.Call.Args[0].(*ssa.Parameter); isPar && par.Parent() == ll && isStringType(par.Type()) {
+			nstr := 0
+			for _, q := range ll.Params {
+				if isStringType(q.Type()) {
+					nstr++
+				}
+			}
+			argIsParam = nstr == 1
+		}
+	}
+	r.Check("R18.1", name, "splits its argument with Lines exactly once", ll.Pos(), nsplit == 1 && split != nil && argIsParam, "")
 	r.Check("R18.1", name, "measures only with "+measureName, ll.Pos(), wrong == "" && len(measures) >= 1, "also uses "+wrong)
 	okArgs := true
 	for _, mc := range measures {
